@@ -125,7 +125,9 @@ def body_line(draw, lang, allow_known=False):
 
 @st.composite
 def body(draw, lang):
-    n = draw(st.integers(1, 6))
+    n = draw(st.integers(0, 6))
+    if n == 0:
+        return []           # an empty user body is a body too: it replaces the generated default by nothing
     lines = [draw(body_line(lang)) for _ in range(n)]
     lines = [l for l in lines if _ok_line(l)] or ["ok();"]
     return lines
